@@ -1,4 +1,5 @@
 import PyecoreModel.Model.Store
+import PyecoreModel.Model.SetOps
 import PyecoreModel.Model.StoreNav
 import PyecoreModel.Model.Commands
 /-! Line protocol for the Store model (C01 C02 C03 C05 C07 C11 C19).  Same records as `harness/store.py::World`. -/
@@ -81,8 +82,20 @@ def parseOp (ws : List String) : Option Op :=
   | ["clear", x, f] => do pure (.clear (← x.toNat?) (← f.toNat?))
   | ["setitem", x, f, i, v] => do pure (.setItem (← x.toNat?) (← f.toNat?) (← i.toInt?) (← parseVal v))
   | ["delitem", x, f, i] => do pure (.delItem (← x.toNat?) (← f.toNat?) (← i.toInt?))
-  | "extend" :: x :: f :: vs | "iadd" :: x :: f :: vs => do pure (.extend (← x.toNat?) (← f.toNat?) (← parseVals vs))
+  | "extend" :: x :: f :: vs | "iadd" :: x :: f :: vs | "ior" :: x :: f :: vs => do pure (.extend (← x.toNat?) (← f.toNat?) (← parseVals vs))
   | "assign" :: x :: f :: vs => do pure (.assign (← x.toNat?) (← f.toNat?) (← parseVals vs))
+  | _ => none
+
+def parseSetOp (ws : List String) : Option SetOp :=
+  match ws with
+  | ["discard", x, f, v] => do pure (.discard (← x.toNat?) (← f.toNat?) (← parseVal v))
+  | "diffupd" :: x :: f :: vs | "isub" :: x :: f :: vs => do pure (.diffUpd (← x.toNat?) (← f.toNat?) (← parseVals vs))
+  | "interupd" :: x :: f :: vs | "iand" :: x :: f :: vs => do pure (.interUpd (← x.toNat?) (← f.toNat?) (← parseVals vs))
+  | "symupd" :: x :: f :: vs | "ixor" :: x :: f :: vs => do pure (.symUpd (← x.toNat?) (← f.toNat?) (← parseVals vs))
+  | "setslice" :: x :: f :: a :: b :: vs => do
+    pure (.setSlice (← x.toNat?) (← f.toNat?) (← a.toNat?) (← b.toNat?) (← parseVals vs))
+  | ["delslice", x, f, a, b] => do pure (.setSlice (← x.toNat?) (← f.toNat?) (← a.toNat?) (← b.toNat?) [])
+  | ["imul", x, f, n] => do pure (.imul (← x.toNat?) (← f.toNat?) (← n.toInt?))
   | _ => none
 
 def renderPath (p : Path) : String :=
@@ -173,10 +186,10 @@ def step (p : S) (line : String) : S × String :=
       let p' := { p with cs := cs', st := st' }
       (p', out ++ s!" n={cs'.n} len={cs'.stack.length} | " ++ dump p')
   | _ =>
-    match parseOp ws with
+    match (parseOp ws).map Sum.inl <|> (parseSetOp ws).map Sum.inr with
     | none => (p, "bad-op")
     | some op =>
-      let (s', r) := Store.step p.mm p.st op
+      let (s', r) := Store.stepAny p.mm p.st op
       let p' := { p with st := s' }
       let out := match r with
         | .ok (some v) => "ok " ++ fmtVal v
